@@ -1332,7 +1332,7 @@ def run(chk):
         c, h = gen_enc_case(rng)
         cases.append(('enc', c, h))
     rng = chk.subrng('enc-scenarios')
-    for _ in range(chk.n(400, 8000)):
+    for _ in range(chk.n(400, 4000)):
         c, h = gen_occ_case(rng) if rng.random() < 0.5 else gen_onset_len_case(rng)
         cases.append(('enc', c, h))
     rng = chk.subrng('dec')
@@ -1344,7 +1344,7 @@ def run(chk):
         for k in range(1, 57):            # every run length at every rate of the quantifier, threshold = nominal length
             c, h = mindur_case(rng, int(fps) if float(fps).is_integer() and k % 2 else float(fps), k)
             cases.append(('dec', c, h))
-    for _ in range(chk.n(300, 6000)):
+    for _ in range(chk.n(300, 3000)):
         c, h = mindur_case(rng, gen_fps(rng, extra=0.15), rng.randrange(1, 64), 'varied')
         cases.append(('dec', c, h))
     rng = chk.subrng('ons')
